@@ -9,3 +9,6 @@ func verifSessionEvent(s *Server, kind string, strm any, sess *sessionTracker, a
 // verifListenEvent is a no-op unless built with the verif tag.
 func verifListenEvent(s *Server, kind string, strm any, tkr *serverPeerTracker, pid string, nonce uint64, want, notWant string) {
 }
+
+// verifSessionReject is a no-op unless built with the verif tag.
+func verifSessionReject(kind string, strm any, why string) {}
